@@ -258,6 +258,24 @@ func makePool(t *core.Tape, n int, rich bool) []poolItem {
 				shape += "~"
 			}
 		}
+		// ids that are not URLs: urn:, did:, acct:, tag:, mailto: name things in the fediverse too. They
+		// have no host and no path for an IRI comparison to look at – only their text – and two of
+		// them are still two identities
+		if t.Bool(1, 8) {
+			n := fmt.Sprint(1000 + 7*i)
+			opaque := []string{"urn:uuid:6ba7b810-9dad-11d1-80b4-00c04fd4" + n, "did:key:z6MkhaXgBZDvotDkL5257faiztiGiC2QtKLGpbn" + n, "acct:user" + n + "@social.example.org",
+				"tag:social.example.org,2024:objectId=" + n + ":objectType=Status", "mailto:user" + n + "@example.com", "did:web:example.com:users:" + n}[t.Draw(6)]
+			taken := false
+			for _, q := range pool {
+				if q.id == opaque {
+					taken = true
+				}
+			}
+			if !taken {
+				it = withID(it, ap.IRI(opaque))
+				shape += "^"
+			}
+		}
 		// members without an id inside a list property: what every Mastodon note carries (hashtags,
 		// mentions, emoji under "tag"; property/value pairs under "attachment"). The item itself has
 		// its identity; what it holds must not keep it from being found again
